@@ -30,6 +30,8 @@ def gen_world(rng, kinds):
         w.update(weights=[round(rng.random() + 0.01, 4) for _ in range(N)], size=rng.choice([None, None, rng.randint(1, N)]))
     elif kind == "semi":
         N = max(N, 2)
+        if rng.random() < 0.6:
+            N = rng.randint(14, 28)  # pools large enough for the rank-difference clause (>= 40 bits)
         n_lab = rng.randint(1, N - 1)
         classes = [rng.randrange(3) for _ in range(n_lab)] + [-1] * (N - n_lab)
         rng.shuffle(classes)
